@@ -86,14 +86,8 @@ pub fn gen(r: &mut Rng) -> String {
         1 => 0,
         _ => r.u16(),
     };
-    let rxs: Vec<String> = (0..r.below(9))
-        .map(|_| match r.below(8) {
-            0 => "n".to_string(),
-            1 => "e".to_string(),
-            _ => show::packet(&gen_packet(r, own)),
-        })
-        .collect();
     let txs: String = (0..r.below(6)).map(|_| if r.below(4) != 0 { 'o' } else { 'e' }).collect();
+    let mut wanted: Vec<usize> = vec![]; // event kinds some exchange of this history asks for
     let mut ops: Vec<String> = vec![];
     let mut next_token = 0u32;
     let mut live: Vec<u32> = vec![];
@@ -145,10 +139,39 @@ pub fn gen(r: &mut Rng) -> String {
             }
             4 | 5 | 6 => ops.push("tick".into()),
             7 => ops.push(format!("send/{}", show::packet(&gen_packet(r, own)))),
-            8 => ops.push(format!("xchg/{}/{}/{}", r.below(16), if r.flip() { 'c' } else { 'o' }, show::packet(&gen_packet(r, own)))),
-            _ => ops.push(format!("xall/{}/{}/{}", r.below(16), if r.flip() { 'c' } else { 'o' }, show::packet(&gen_packet(r, own)))),
+            8 => {
+                let k = r.below(16) as usize;
+                wanted.push(k);
+                ops.push(format!("xchg/{}/{}/{}", k, if r.flip() { 'c' } else { 'o' }, show::packet(&gen_packet(r, own))));
+            }
+            _ => {
+                let k = r.below(16) as usize;
+                wanted.push(k);
+                ops.push(format!("xall/{}/{}/{}", k, if r.flip() { 'c' } else { 'o' }, show::packet(&gen_packet(r, own))));
+            }
         }
     }
+    // the link's receive queue: half of the packets are replies of a kind one of the exchanges asks for (addressed to the
+    // device, to everybody or to somebody else), so that exchanges find, skip and miss replies in every mix
+    let rxs: Vec<String> = (0..r.below(9))
+        .map(|_| match r.below(8) {
+            0 => "n".to_string(),
+            1 => "e".to_string(),
+            2 | 3 | 4 if !wanted.is_empty() => {
+                let k = *r.pick(&wanted);
+                let mut p = Ev::gen(k, r).ref_packet();
+                if p.data.len() > 40 {
+                    p = Ev::gen(3, r).ref_packet();
+                }
+                p.device_address = gen_addr(r, own);
+                if r.below(10) == 0 {
+                    p.is_error = true;
+                }
+                show::packet(&p)
+            }
+            _ => show::packet(&gen_packet(r, own)),
+        })
+        .collect();
     format!("{:04x} {} {} {}", own, list(&rxs, ","), if txs.is_empty() { "-".into() } else { txs }, list(&ops, ";"))
 }
 
